@@ -5,6 +5,7 @@ package main
 import (
 	"encoding/json"
 	"fmt"
+	"time"
 	"reflect"
 	"sort"
 	"strconv"
@@ -15,9 +16,15 @@ import (
 	"github.com/antlr4-go/antlr/v4"
 	"github.com/nyaruka/gocommon/urns"
 	gen "github.com/nyaruka/goflow/antlr/gen/contactql"
+	"github.com/nyaruka/gocommon/uuids"
+	"github.com/nyaruka/goflow/assets"
+	"github.com/nyaruka/goflow/assets/static"
 	"github.com/nyaruka/goflow/contactql"
 	"github.com/nyaruka/goflow/envs"
 	"github.com/nyaruka/goflow/flows"
+	"github.com/nyaruka/goflow/flows/engine"
+	"github.com/nyaruka/goflow/flows/events"
+	"github.com/nyaruka/goflow/flows/triggers"
 	"github.com/nyaruka/goflow/utils"
 
 	"verifharness/pkg/hx"
@@ -617,7 +624,7 @@ func genTree(r *hx.Rand, redact bool, depth int) *qnode {
 	return n
 }
 
-// templates: %s = a substituted value
+// templates: %s = a slot that is filled with an expression of the flow (see slotExprs)
 var templates = []string{
 	`name = %s`,
 	`name = %s OR fields.age > 10`,
@@ -629,10 +636,77 @@ var templates = []string{
 	`uuid = %s or UUID is %s`,
 	`(((fields.x = %s)))`,
 	`fields.x=%s`,
-	`fields.x=%sOR fields.y=%s`,
+	`fields.x=%s OR fields.y=%s`,
 	`fields.x = %s AND "bob"`,
 	`group = %s AND fields.x != %s OR id = 5`,
 	`fields.or = %s and fields.and = %s`,
+	`name = %s %s`,
+	`fields.a = %s AND fields.b = %s`,
+}
+
+// the expressions a slot can hold and the value each evaluates to in a session whose incoming message text is `in` and
+// whose contact is named `name` (the field not_set has no value; trim of blanks is empty)
+type slotExpr struct {
+	expr  string
+	value func(in, name string) string
+}
+
+var slotExprs = []slotExpr{
+	{`@input.text`, func(in, name string) string { return in }},
+	{`@contact.name`, func(in, name string) string { return name }},
+	{`@(input.text)`, func(in, name string) string { return in }},
+	{`@fields.not_set`, func(in, name string) string { return "" }},
+	{`@(trim("   "))`, func(in, name string) string { return "" }},
+	{`@(contact.name & "")`, func(in, name string) string { return name }},
+}
+
+const injectAssets = `{
+ "flows": [{"uuid": "f1000000-0000-4000-8000-000000000001", "name": "Inject", "spec_version": "13.1.0", "language": "eng", "type": "messaging",
+   "nodes": [{"uuid": "a1000000-0000-4000-8000-000000000001",
+     "actions": [{"type": "start_session", "uuid": "b1000000-0000-4000-8000-000000000001",
+        "flow": {"uuid": "f1000000-0000-4000-8000-000000000001", "name": "Inject"}, "contact_query": %s}],
+     "exits": [{"uuid": "c1000000-0000-4000-8000-000000000001"}]}]}],
+ "fields": [{"uuid": "d1000000-0000-4000-8000-000000000001", "key": "not_set", "name": "Not set", "type": "text"}],
+ "channels": [{"uuid": "e1000000-0000-4000-8000-000000000001", "name": "Ch", "address": "+12345", "schemes": ["tel"], "roles": ["send", "receive"]}]
+}`
+
+// the contact query the REAL engine produces for the template: a session is started with an incoming message on a flow
+// whose only action is start_session with that contact_query; the query is read from the session_triggered event
+func engineQuery(tpl, in, name string) (string, error) {
+	tj, _ := json.Marshal(tpl)
+	src, err := static.NewSource([]byte(fmt.Sprintf(injectAssets, tj)))
+	if err != nil {
+		return "", err
+	}
+	env := envs.NewBuilder().Build()
+	sa, err := engine.NewSessionAssets(env, src, nil)
+	if err != nil {
+		return "", err
+	}
+	contact, err := flows.NewContact(sa, flows.ContactUUID(uuids.NewV4()), 7, name, "eng", flows.ContactStatusActive, nil,
+		time.Date(2020, 1, 1, 0, 0, 0, 0, time.UTC), nil, []urns.URN{"tel:+12065551212"}, nil, nil, nil, assets.IgnoreMissing)
+	if err != nil {
+		return "", err
+	}
+	flow, err := sa.Flows().Get("f1000000-0000-4000-8000-000000000001")
+	if err != nil {
+		return "", err
+	}
+	msg := flows.NewMsgIn(flows.MsgUUID(uuids.NewV4()), urns.URN("tel:+12065551212"), nil, in, nil)
+	trigger := triggers.NewBuilder(env, flow.Reference(false), contact).Msg(msg).Build()
+	_, sprint, err := engine.NewBuilder().Build().NewSession(sa, trigger)
+	if err != nil {
+		return "", err
+	}
+	for _, ev := range sprint.Events() {
+		switch t := ev.(type) {
+		case *events.SessionTriggeredEvent:
+			return t.ContactQuery, nil
+		case *events.ErrorEvent:
+			return "", fmt.Errorf("error event: %s", t.Text)
+		}
+	}
+	return "", fmt.Errorf("no session_triggered event")
 }
 
 // ---------------------------------------------------------------------------------------------------
@@ -846,32 +920,58 @@ func runCqlStreams(o *hx.Opts, res *hx.Result, r *hx.Rand) {
 		e.emit(w, "tree", t, text, ob)
 	}
 
-	// ---- inject ----------------------------------------------------------------------------------------
+	// ---- inject: through the real engine (Evaluator.Template + ContactQueryEscaping + the action's own handling) ----
 	ri := r.Fork("inject")
 	nInj := o.Count(400, 8000)
+	longTail := strings.Repeat("x", 10100)
 	for i := 0; i < nInj; i++ {
 		redact := i%3 == 2
 		w := newWorld(redact)
 		tpl := templates[i%len(templates)]
 		k := strings.Count(tpl, "%s")
-		vals := make([]string, k)
-		escaped := make([]any, k)
-		holders := make([]any, k)
-		for j := range vals {
-			vals[j] = pickValue(ri)
-			if i < len(templates)*len(bsValues) {
-				// every template with every backslash-run value in every slot
-				vals[j] = bsValues[(i/len(templates)+j)%len(bsValues)]
-			}
-			escaped[j] = flows.ContactQueryEscaping(vals[j])
-			holders[j] = fmt.Sprintf(`"zqholder%d"`, j)
+		in, name := pickValue(ri), pickValue(ri)
+		if i < len(templates)*len(bsValues) {
+			// every template with every backslash-run value
+			in, name = bsValues[(i/len(templates))%len(bsValues)], bsValues[(i/len(templates)+3)%len(bsValues)]
 		}
-		text := fmt.Sprintf(tpl, escaped...)
+		switch {
+		case i%41 == 7:
+			in = `a" OR id = 1 ` + longTail // longer than MaxTemplateChars once escaped
+		case i%41 == 19:
+			name = strings.Repeat("y", 9970+ri.Intn(40)) + `" OR id = 1 OR name = "z`
+		case i%13 == 5:
+			in = hx.Pick(ri, []string{"", " ", "   ", "\t"})
+		}
+		slots := make([]slotExpr, k)
+		exprs := make([]any, k)
+		holders := make([]any, k)
+		vals := make([]string, k)
+		for j := range slots {
+			slots[j] = hx.Pick(ri, slotExprs)
+			if i < len(templates)*len(bsValues) {
+				slots[j] = slotExprs[j%2]
+			}
+			exprs[j] = slots[j].expr
+			holders[j] = fmt.Sprintf(`"zqholder%d"`, j)
+			vals[j] = slots[j].value(in, name)
+		}
+		flowTpl := fmt.Sprintf(tpl, exprs...)
+		text, err := engineQuery(flowTpl, in, name)
+		if err != nil {
+			msg := err.Error()
+			if len(msg) > 60 {
+				msg = msg[:60]
+			}
+			res.Dist("inject:engine-error(skipped):" + msg)
+			continue
+		}
 		base := observe(w.env, fmt.Sprintf(tpl, holders...))
 		ob := observe(w.env, text)
 		nontrivial := false
+		long := false
 		for _, v := range vals {
-			nontrivial = nontrivial || interestingValue(v)
+			nontrivial = nontrivial || interestingValue(v) || v == ""
+			long = long || len(v) > 9000
 		}
 		res.Eval(fmt.Sprintf("inject/%v/%s", redact, text), nontrivial)
 		res.Dist("inject:" + ob.Kind)
@@ -879,11 +979,22 @@ func runCqlStreams(o *hx.Opts, res *hx.Result, r *hx.Rand) {
 			panic(fmt.Sprintf("template %q does not parse with placeholders: %+v", tpl, base))
 		}
 		res.OracleChecks++
-		in := failIn{Stream: "inject", Redact: redact, Text: text, Tpl: tpl, Values: vals}
+		shown := func(x string) string {
+			if len(x) > 300 {
+				return x[:150] + " ...(" + fmt.Sprint(len(x)) + " bytes)... " + x[len(x)-60:]
+			}
+			return x
+		}
+		in2 := failIn{Stream: "inject", Redact: redact, Text: shown(text), Tpl: flowTpl, Values: []string{shown(in), shown(name)}}
 		feature := "other"
 		for _, v := range vals {
-			if strings.HasSuffix(v, `\`) {
+			switch {
+			case len(v) > 9000:
+				feature = "template-truncated-after-escaping"
+			case feature == "other" && strings.HasSuffix(v, `\`):
 				feature = "value-ending-in-backslash"
+			case feature == "other" && strings.TrimSpace(v) == "":
+				feature = "empty-value"
 			}
 		}
 		switch ob.Kind {
@@ -893,19 +1004,35 @@ func runCqlStreams(o *hx.Opts, res *hx.Result, r *hx.Rand) {
 				for j := range vals {
 					if c.Value == fmt.Sprintf("zqholder%d", j) {
 						c.Value = vals[j]
+						if c.PT == "attr" && c.Key == "name" && c.Op == "~" && strings.Contains(tpl, "%s %s") && j == 1 {
+							// a bare literal is an implicit condition: which property and operator it becomes depends on the
+							// value by design (name ~ / name = / tel ~ / a URN); it must stay exactly ONE condition at that place
+							c.PT, c.Key, c.Op, c.Value = "*", "*", "*", "*"
+						}
 					}
 				}
 			}
-			if !reflect.DeepEqual(ob.Root, want) {
-				res.Fail("injection:"+feature, in, fmt.Sprintf("template %q with values %q gives %q, which parses to %s; the template's structure is %s", tpl, vals, text, ob.Root, want))
+			got := ob.Root
+			if gc, wc := got.conds(nil), want.conds(nil); len(gc) == len(wc) {
+				for x := range wc {
+					if wc[x].PT == "*" {
+						gc[x].PT, gc[x].Key, gc[x].Op, gc[x].Value = "*", "*", "*", "*"
+					}
+				}
+			}
+			if !reflect.DeepEqual(got, want) {
+				res.Fail("injection:"+feature, in2, fmt.Sprintf("flow template %q with input %q and contact name %q evaluates to %q, which parses to %s; the template's structure is %s",
+					flowTpl, shown(in), shown(name), shown(text), shown(ob.Root.String()), shown(want.String())))
 			}
 		case "syntax":
-			res.Fail("injection:"+feature, in, fmt.Sprintf("template %q with values %q gives %q, which does not parse", tpl, vals, text))
+			res.Fail("injection:"+feature, in2, fmt.Sprintf("flow template %q with input %q and contact name %q evaluates to %q, which does not parse", flowTpl, shown(in), shown(name), shown(text)))
 		default:
 			res.Dist("inject:rejected-by-validation(skipped):" + ob.Code)
 		}
-		checkReparse(res, w, "inject", text, ob)
-		e.emit(w, "inject", nil, text, ob)
+		if !long {
+			checkReparse(res, w, "inject", text, ob)
+			e.emit(w, "inject", nil, text, ob)
+		}
 	}
 	e.flush()
 }
